@@ -527,6 +527,8 @@ impl Store {
         #[cfg(feature = "verif")]
         self.verif.point("commit.pre", Some(&frame));
         batch.commit()?;
+        #[cfg(feature = "verif")]
+        self.verif.point("commit.sync", Some(&frame));
         self.keyspace.persist(fjall::PersistMode::SyncAll)?;
         #[cfg(feature = "verif")]
         self.verif.point("commit.post", Some(&frame));
@@ -606,6 +608,8 @@ impl Store {
         #[cfg(feature = "verif")]
         self.verif.point("commit.pre", Some(frame));
         batch.commit()?;
+        #[cfg(feature = "verif")]
+        self.verif.point("commit.sync", Some(frame));
         self.keyspace.persist(fjall::PersistMode::SyncAll)?;
 
         // An imported registration must be usable right away, not only after the next open:
